@@ -409,6 +409,116 @@ fn disk(work: &str, n_cases: usize) {
     let _ = std::fs::remove_dir_all(&base);
 }
 
+// ------------------------------------------------------------------------------------------
+// background compaction reads the corrupted block first
+// ------------------------------------------------------------------------------------------
+
+fn compact_once(rt: &tokio::runtime::Runtime, db: &Database) -> String {
+    use rlverif::risinglight::storage::StorageImpl;
+    let st = match db.verif_storage() { StorageImpl::SecondaryStorage(s) => s, _ => unreachable!() };
+    match catch(|| rt.block_on(st.verif_compact_once())) {
+        Err(_) => "panic".into(),
+        Ok(Ok(())) => "ok".into(),
+        Ok(Err(e)) => { let m = e.to_string(); err_class(&m).to_string() }
+    }
+}
+
+fn rowset_dirs(p: &std::path::Path) -> Vec<String> {
+    let mut v: Vec<String> = std::fs::read_dir(p).unwrap().filter_map(|e| { let e = e.unwrap(); if e.path().is_dir() { Some(e.file_name().to_string_lossy().to_string()) } else { None } }).collect();
+    v.sort();
+    v
+}
+
+/// `c18 compact <workdir> <n>`: table t in TWO row-sets (so that a compaction pass selects them),
+/// one block of one of its column files corrupted; sequences
+///   A: open, compaction pass, compaction pass, SELECT, fresh reopen, SELECT
+///   B: open, SELECT (first read), compaction pass, SELECT, fresh reopen, SELECT
+fn compact(work: &str, n_cases: usize) {
+    let mut r = Rng::from_env();
+    let base = std::path::Path::new(work).join("c18c-base");
+    let _ = std::fs::remove_dir_all(&base);
+    let (want_t, want_u) = {
+        let rt = runtime();
+        let db = rt.block_on(Database::verif_new_on_disk_nobg(options(&base))).unwrap();
+        run_sql(&rt, &db, "create table t (a int, b varchar)");
+        for part in 0..2 {
+            let vals: Vec<String> = (0..20).map(|i| format!("({}, '{}')", part * 1000 + i * 7 + 1, ["x", "yy", "zzz", ""][i % 4])).collect();
+            run_sql(&rt, &db, &format!("insert into t values {}", vals.join(", ")));
+        }
+        run_sql(&rt, &db, "create table u (k int)");
+        run_sql(&rt, &db, "insert into u values (10), (20), (30)");
+        (run_sql(&rt, &db, "select a, b from t order by a"), run_sql(&rt, &db, "select k from u"))
+    };
+    let dirs = rowset_dirs(&base);
+    let mut files: Vec<(String, Vec<u8>)> = vec![];
+    for d in &dirs {
+        if !d.starts_with("0_") { continue; } // table t has id 0
+        for e in std::fs::read_dir(base.join(d)).unwrap() {
+            let p = e.unwrap().path();
+            let name = p.file_name().unwrap().to_string_lossy().to_string();
+            if name.ends_with(".col") { files.push((format!("{d}/{name}"), std::fs::read(&p).unwrap())); }
+        }
+    }
+    files.sort();
+    println!("{{\"compact_base\":{{\"rowset_dirs\":{:?},\"col_files\":{}}}}}", dirs, files.len());
+    let scratch = std::path::Path::new(work).join("c18c-case");
+    for case in 0..n_cases {
+        let (name, bytes) = &files[case % files.len()];
+        let idxname = name.replace(".col", ".idx");
+        let ib = std::fs::read(base.join(&idxname)).unwrap();
+        let entries: Vec<(usize, usize)> = hk::VerifColumn::open(vec![], &ib, DataType::Int32, None).unwrap()
+            .index_entries().iter().map(|e| (e.offset as usize, e.length as usize)).collect();
+        let b = r.below(entries.len() as u64) as usize;
+        let (off, len) = entries[b];
+        // payload positions mostly, sometimes the trailer
+        let patch = match r.below(8) {
+            0 => format!("zero12:{b}:{}:{}", r.below((len - 16).max(1) as u64), 1 + r.below(255)),
+            1 => format!("flip:{}:{}", off + len - 1 - r.below(16) as usize, r.below(8)),
+            2 | 3 => format!("set:{}:{}", off + r.below((len - 16).max(1) as u64) as usize, r.below(256)),
+            _ => format!("flip:{}:{}", off + r.below((len - 16).max(1) as u64) as usize, r.below(8)),
+        };
+        let seq = if case % 2 == 0 { "A" } else { "B" };
+        let _ = std::fs::remove_dir_all(&scratch);
+        copy_dir(&base, &scratch);
+        let mut bb = bytes.clone();
+        apply_patch(&mut bb, &patch, &entries);
+        let changed = bb != *bytes;
+        std::fs::write(scratch.join(name), &bb).unwrap();
+        let rt = runtime();
+        let mut res: Vec<String> = vec![];
+        match catch(|| rt.block_on(Database::verif_new_on_disk_nobg(options(&scratch)))) {
+            Err(_) | Ok(Err(_)) => res.push("open:err".into()),
+            Ok(Ok(db)) => {
+                res.push("open:ok".into());
+                if seq == "A" {
+                    res.push(format!("c1:{}", compact_once(&rt, &db)));
+                    res.push(format!("c2:{}", compact_once(&rt, &db)));
+                    res.push(format!("q1:{}", query(&rt, &db, "select a, b from t order by a", &want_t)));
+                } else {
+                    res.push(format!("q1:{}", query(&rt, &db, "select a, b from t order by a", &want_t)));
+                    res.push(format!("c1:{}", compact_once(&rt, &db)));
+                    res.push(format!("q2:{}", query(&rt, &db, "select a, b from t order by a", &want_t)));
+                }
+                res.push(format!("u:{}", query(&rt, &db, "select k from u", &want_u)));
+                res.push(format!("dirs:{}", rowset_dirs(&scratch).join("+")));
+                drop(db);
+                match catch(|| rt.block_on(Database::verif_new_on_disk_nobg(options(&scratch)))) {
+                    Err(_) | Ok(Err(_)) => res.push("reopen:err".into()),
+                    Ok(Ok(db2)) => {
+                        res.push("reopen:ok".into());
+                        res.push(format!("r1:{}", query(&rt, &db2, "select a, b from t order by a", &want_t)));
+                        res.push(format!("r2:{}", query(&rt, &db2, "select a, b from t order by a", &want_t)));
+                    }
+                }
+            }
+        }
+        let ents: Vec<String> = entries.iter().map(|(o, l)| format!("{o},{l}")).collect();
+        println!("{{\"file\":\"{}\",\"patch\":\"{}\",\"seq\":\"{}\",\"changed\":{},\"block\":{},\"hex\":\"{}\",\"entries\":\"{}\",\"res\":\"{}\"}}", name, patch, seq, changed, b, hex(bytes), ents.join(";"), res.join(" "));
+    }
+    let _ = std::fs::remove_dir_all(&scratch);
+    let _ = std::fs::remove_dir_all(&base);
+}
+
 fn main() {
     let args: Vec<String> = std::env::args().collect();
     match args[1].as_str() {
@@ -420,6 +530,7 @@ fn main() {
             }
         }
         "disk" => disk(&args[2], args[3].parse().unwrap()),
+        "compact" => compact(&args[2], args[3].parse().unwrap()),
         "openonly" => {
             // exit code 0: open returned or panicked (caught); killed by SIGABRT otherwise
             let rt = runtime();
